@@ -35,6 +35,8 @@ def gen_limits(rng, names, x0, never_decreases):
         if x0[i] == 0 and rng.random() < 0.25:
             # a compartment that must stay empty: upper limit exactly 0 (a falsy number)
             lims.append([None if never_decreases[i] and rng.random() < 0.5 else 0, 0])
+        elif r < 0.08 and never_decreases[i]:
+            lims.append([None, None])                           # explicitly unlimited (no event lowers it)
         elif r < 0.45:
             lims.append(None)                                   # default (0, None)
         elif r < 0.60:
